@@ -3,17 +3,60 @@ package gradtrack
 import "github.com/sahandsafizadeh/qeep/tensor/internal/tensor"
 
 func BackPropagate(t tensor.Tensor) (err error) {
-	return backward(startEdge(t))
+	root := gradContextOf(t)
+
+	if !root.tracked {
+		return nil
+	}
+
+	// every context precedes the contexts of the tensors it was computed from
+	order := topologicalOrder(root)
+	for _, gctx := range order {
+		gctx.bpdirty = true
+	}
+
+	// neutral tensor; same shape, all ones
+	err = accumulateGrad(root, toOnes(t))
+	if err != nil {
+		return
+	}
+
+	for _, gctx := range order {
+		for _, e := range gctx.backEdges {
+			err = backward(e)
+			if err != nil {
+				return
+			}
+		}
+	}
+
+	return nil
 }
 
-func startEdge(t tensor.Tensor) (edge *backwardEdge) {
-	return &backwardEdge{
-		target: t,
-		gradFn: func() (tensor.Tensor, error) {
-			// neutral tensor; same shape, all ones
-			return toOnes(t), nil
-		},
+func topologicalOrder(root *GradContext) (order []*GradContext) {
+	visited := make(map[*GradContext]bool)
+
+	var visit func(*GradContext)
+	visit = func(gctx *GradContext) {
+		visited[gctx] = true
+
+		for _, e := range gctx.backEdges {
+			target := gradContextOf(e.target)
+			if target.tracked && !visited[target] {
+				visit(target)
+			}
+		}
+
+		order = append(order, gctx)
 	}
+
+	visit(root)
+
+	for i, j := 0, len(order)-1; i < j; i, j = i+1, j-1 {
+		order[i], order[j] = order[j], order[i]
+	}
+
+	return order
 }
 
 func backward(edge *backwardEdge) (err error) {
@@ -21,8 +64,6 @@ func backward(edge *backwardEdge) (err error) {
 
 	if !gctx.tracked {
 		return nil
-	} else {
-		gctx.bpdirty = true
 	}
 
 	grad, err := edge.gradFn()
@@ -30,19 +71,7 @@ func backward(edge *backwardEdge) (err error) {
 		return
 	}
 
-	err = accumulateGrad(gctx, grad)
-	if err != nil {
-		return
-	}
-
-	for _, e := range gctx.backEdges {
-		err = backward(e)
-		if err != nil {
-			return
-		}
-	}
-
-	return nil
+	return accumulateGrad(gctx, grad)
 }
 
 func accumulateGrad(gctx *GradContext, grad tensor.Tensor) (err error) {
